@@ -628,3 +628,95 @@ func PkgPath(f *ssa.Function) string {
 	}
 	return ""
 }
+
+// CallbackInvocations: closure mc (made in a function of the repository) is handed, as an argument, to virtually
+// inlined helpers that call that parameter; the calls of the parameter inside the helpers are returned (empty when mc
+// is used in any other way: stored, deferred, started as a goroutine, handed to a function that is not inlined).
+func CallbackInvocations(mc *ssa.MakeClosure) []*ssa.Call {
+	var out []*ssa.Call
+	if mc.Referrers() == nil {
+		return nil
+	}
+	for _, ref := range *mc.Referrers() {
+		s, ok := ref.(*ssa.Call)
+		if !ok {
+			if _, isDbg := ref.(*ssa.DebugRef); isDbg {
+				continue
+			}
+			return nil
+		}
+		h := InlinedCallee(s)
+		if h == nil {
+			return nil
+		}
+		found := false
+		for i, a := range s.Call.Args {
+			if a != ssa.Value(mc) || i >= len(h.Params) {
+				continue
+			}
+			p := h.Params[i]
+			if p.Referrers() == nil {
+				continue
+			}
+			for _, pr := range *p.Referrers() {
+				switch pc := pr.(type) {
+				case *ssa.Call:
+					if pc.Call.Value == ssa.Value(p) {
+						out = append(out, pc)
+						found = true
+					} else {
+						return nil
+					}
+				case *ssa.DebugRef:
+				default:
+					return nil
+				}
+			}
+		}
+		if !found {
+			return nil
+		}
+	}
+	return out
+}
+
+// CallbackTarget: c calls a function-valued parameter of a virtually inlined helper; the closure / function bound to
+// that parameter at the helper's call site in the current host (WithHost), when there is exactly one such site.
+func CallbackTarget(c *ssa.Call) *ssa.Function {
+	if inl == nil || c.Call.IsInvoke() || c.Call.StaticCallee() != nil {
+		return nil
+	}
+	p, ok := c.Call.Value.(*ssa.Parameter)
+	if !ok || !IsInlined(p.Parent()) {
+		return nil
+	}
+	var site *ssa.Call
+	for _, s := range InlineSites(p.Parent()) {
+		if hostCtx != nil && !InBody(hostCtx, s.Parent()) && s.Parent() != hostCtx {
+			continue
+		}
+		if site != nil {
+			return nil
+		}
+		site = s
+	}
+	if site == nil {
+		return nil
+	}
+	for i, q := range p.Parent().Params {
+		if q != p || i >= len(site.Call.Args) {
+			continue
+		}
+		switch x := site.Call.Args[i].(type) {
+		case *ssa.MakeClosure:
+			if t, ok := x.Fn.(*ssa.Function); ok && t.Blocks != nil {
+				return t
+			}
+		case *ssa.Function:
+			if x.Blocks != nil && strings.HasPrefix(PkgPath(x), Module) {
+				return x
+			}
+		}
+	}
+	return nil
+}
